@@ -17,6 +17,8 @@ import Proofs.Stmts
 import Proofs.CratesV1Stmts
 import Proofs.CratesV1Coroll
 import Proofs.V2CratesStmts
+import Proofs.TracksV2Stmts
+import Proofs.TracksV1Stmts
 
 namespace EngineModel.Properties.C14
 open EngineModel.Spec.Txn EngineModel.Proofs.Txn
@@ -258,6 +260,89 @@ theorem C14_crates_v2_all_or_nothing (d : V2.Db) (op : V2.Op) (k : Nat) (auto : 
 
 end cratesV2
 
+/-! ### concrete operations: schema-2.x tracks (the statement-level table model `TracksV2/Table.lean`)
+
+`TracksV2.topStmts` (`TracksV2/Stmts.lean`): `create_track`, `track::update` and the single-UPDATE setters are one
+write; `set_bpm`, `set_key`, `set_relative_path`, `set_sample_count`, `set_sample_rate` are the scope of their
+two or three UPDATEs in the order of the C++; `remove_track` is the scope of its DELETE. -/
+section tracksV2
+open EngineModel.TracksV2 EngineModel.Spec.Stmts
+
+theorem C14_tracks_v2_program (ops : FOps) (s : TracksV2.Schema) (db : TDb) (op : TOp) (n : Nat) (auto : Bool)
+    (h : (db.step ops s op).2 = .ok n) :
+    (call none auto (topStmts ops s db op) db).raised = false ∧
+    (call none auto (topStmts ops s db op) db).conn = Conn.idle (db.step ops s op).1 :=
+  topStmts_run ops s db op n auto h
+
+theorem C14_tracks_v2_shape (ops : FOps) (s : TracksV2.Schema) (op : TOp) (db : TDb) :
+    atomicShape (topShapeOf ops s op db) = true :=
+  topStmts_atomic ops s db op
+
+theorem C14_tracks_v2_skeleton (ops : FOps) (s : TracksV2.Schema) (op : TOp) (db : TDb) (n : Nat)
+    (h : (db.step ops s op).2 = .ok n) : skeleton (topShapeOf ops s op db) = op.skeleton.kinds :=
+  topStmts_skeleton ops s db op n h
+
+theorem C14_tracks_v2_all_or_nothing (ops : FOps) (s : TracksV2.Schema) (db : TDb) (op : TOp) (k : Nat) (auto : Bool)
+    (hk : k < countFaultable (topShapeOf ops s op db)) :
+    (call (some k) auto (topStmts ops s db op) db).raised = true ∧
+    (call (some k) auto (topStmts ops s db op) db).conn = Conn.idle db :=
+  C14_all_or_nothing _ (C14_tracks_v2_shape ops s op db) k auto db hk
+
+/-- the table of the counterexample below: one track, every column at its default -/
+def cxOps : FOps := ⟨fun _ => 0, fun _ => 0, fun _ _ => 0⟩
+def cxTable : TDb := ⟨[1], 1, [⟨1, [1], 1, default⟩]⟩
+
+/-- **The scope is needed** (the defect repaired by dbbedfa, DESIGN §7): the two UPDATEs of 2.x `set_bpm` issued
+*without* their `sqlite_transaction` are not an atomic shape, and a fault on the second one raises with
+`bpmAnalyzed` already written — a partial update.  Replayed on the real library: corpus/C14/v2_set_bpm.txt. -/
+theorem C14_set_bpm_unscoped_counterexample :
+    atomicShape ((setBody cxOps cxTable 1 (.bpm (some 0x405e000000000000))).map Cmd.kind) = false ∧
+    (call (some 1) false (setBody cxOps cxTable 1 (.bpm (some 0x405e000000000000))) cxTable).raised = true ∧
+    (call (some 1) false (setBody cxOps cxTable 1 (.bpm (some 0x405e000000000000))) cxTable).conn.committed ≠ cxTable ∧
+    (call (some 1) false (topStmts cxOps .s2_21_2 cxTable (.set 1 (.bpm (some 0x405e000000000000)))) cxTable).conn.committed
+      = cxTable := by
+  decide +kernel
+
+end tracksV2
+
+open EngineModel.Db EngineModel.Spec.Stmts in
+/-- Likewise for 2.x `database::remove_track` (the defect repaired by 516c689): its DELETEs — the membership, then
+the track — outside a scope: a fault on the second raises with the membership already gone.
+Replayed on the real library: corpus/C14/v2_remove_track.txt. -/
+theorem C14_remove_track_unscoped_counterexample :
+    let d := V2.run V2.Db.empty [.createRoot [65], .createTrack, .addTrack 1 1]
+    atomicShape ((V2.body d (.removeTrack 1)).map Cmd.kind) = false ∧
+    (call (some 1) false (V2.body d (.removeTrack 1)) d).raised = true ∧
+    (call (some 1) false (V2.body d (.removeTrack 1)) d).conn.committed ≠ d ∧
+    (call (some 1) false (V2.stmts d (.removeTrack 1)) d).conn.committed = d := by
+  decide +kernel
+
+/-! ### concrete operations: schema-1.x tracks (`TracksV1/Accessors.lean`, call granularity)
+
+The 1.x track model has no statement level: a call is one write (the joint effect of its statements) inside the
+scope engine_track_impl.cpp gives it.  Lean carries the scope table per operation (`TracksV1.Field.scoped`), which
+the tie checks against the skeleton of every real call. -/
+section tracksV1
+open EngineModel.TracksV1 EngineModel.Spec.Stmts
+
+theorem C14_tracks_v1_program (o : EngineModel.TracksV1.Fl.FOps) (d d' : TracksV1.Db) (op : TracksV1.TOp) (auto : Bool)
+    (h : TracksV1.topStep o d op = .ok d') :
+    (call none auto (TracksV1.topStmts o op) d).raised = false ∧
+    (call none auto (TracksV1.topStmts o op) d).conn = Conn.idle d' :=
+  TracksV1.topStmts_run o d d' op auto h
+
+theorem C14_tracks_v1_shape (o : EngineModel.TracksV1.Fl.FOps) (op : TracksV1.TOp) :
+    atomicShape (TracksV1.topShapeOf o op) = true ∧ skeleton (TracksV1.topShapeOf o op) = op.skeleton.kinds :=
+  ⟨TracksV1.topStmts_atomic o op, TracksV1.topStmts_skeleton o op⟩
+
+theorem C14_tracks_v1_all_or_nothing (o : EngineModel.TracksV1.Fl.FOps) (d : TracksV1.Db) (op : TracksV1.TOp) (k : Nat) (auto : Bool)
+    (hk : k < countFaultable (TracksV1.topShapeOf o op)) :
+    (call (some k) auto (TracksV1.topStmts o op) d).raised = true ∧
+    (call (some k) auto (TracksV1.topStmts o op) d).conn = Conn.idle d :=
+  C14_all_or_nothing _ (C14_tracks_v1_shape o op).1 k auto d hk
+
+end tracksV1
+
 /-! ### non-vacuity -/
 
 -- shapes the library is observed to issue
@@ -295,6 +380,11 @@ open EngineModel.Db in
 example : let d := V2.run V2.Db.empty [.createRoot [65], .createSub 1 [66], .createTrack, .addTrack 2 1]
     (V2.step d (.removeCrate 1)).2 = .ok none ∧ countFaultable (V2.shapeOf (.removeCrate 1) d) = 6 ∧
     V2.shapeOf (.addTrack 2 1) d = [.read, .read, .read] := by
+  decide +kernel
+
+open EngineModel.TracksV2 in
+example : countFaultable (topShapeOf cxOps .s2_21_2 (.set 1 (.relativePath [97, 46, 109, 112, 51])) cxTable) = 5 ∧
+    (cxTable.step cxOps .s2_21_2 (.set 1 (.relativePath [97, 46, 109, 112, 51]))).2 = .ok 0 := by
   decide +kernel
 
 end EngineModel.Properties.C14
